@@ -145,3 +145,10 @@ for fn_no, nm, fn in ((1, 'set_string', 'set_string'), (2, 'set_basic_string', '
                    dict(name='_dbus_marshal_set_uint32', file='dbus/dbus-marshal-basic.c', status='replaced', note='call log (its packing: C02 basics)'),
                    dict(name='_dbus_string_init_const/_get_length/_get_const_data_len', file=STR, status='stub', note='constant string over the new value (length = strlen, ghost); pointer to the 4-byte length word')],
         assumptions=['old and new string lengths below 2^28 (validated messages: < 128 MiB), pos 4-aligned (asserted by the code)']))
+
+UNITS.append(dict(name='C14.hash.rebuild', props=['C14', 'C04', 'C13'], kind='B', route='plain', entry='harness',
+    tus=[dict(file='dbus/dbus-hash.c', include_as='VERIF_TU')], harness='harness/c14_hash.c', unwind=8, timeout=600, expect_s=30,
+    bounds={'table': 'initial 4 static buckets, <= 3 integer-keyed entries, growing'}, must_have=['rebuild.post1', 'rebuild.post5', 'rebuild.post7'],
+    functions=[dict(name='rebuild_table', file='dbus/dbus-hash.c', status='bounded', contract='FALSE => every field of the table as before (array and recorded size consistent); TRUE => fresh array of exactly n_buckets slots, every entry once in the chain its key hashes to'),
+               dict(name='dbus_malloc0/dbus_free', file='dbus/dbus-memory.c', status='stub', note='allocation may fail; size logged')],
+    assumptions=['table in its initial size with <= 3 entries (bound); integer keys 7, 14, 21 (concrete: the multiplicative hash of a symbolic key exhausted 16 GB)']))
